@@ -5,7 +5,7 @@ from harness import runner, tlc, isagen
 
 INV = ['SelectedIsLeastAccepting', 'RegisterNeverNumeric', 'NoAcceptingMeansRejected', 'Emit']
 TXT = {'r': 'r1', 'r2': 'r2', '[r]': '[r1]', '[r+n]': '[r1+5]', '[n]': '[5]', '[[n]]': '[[5]]', 'r+n': 'r1+5', 'key': 'kx',
-       'num': '5', 'lab': 'lab', '{n}': '{5}', 'hexa': '$a', 'chra': "'a'"}
+       'num': '5', 'lab': 'lab', '{n}': '{5}', 'hexa': '$a', 'chra': "'a'", 'r++': 'r1++', '@r': '@r1'}
 VAL = {'num': 5, 'lab': 9, 'key': 7, '{n}': 5, 'hexa': 10, 'chra': 97}
 
 
@@ -20,6 +20,10 @@ def alt_cfg(a):
     arg = {'size': 8, 'byte_align': False}
     if ty == 'register':
         return {'type': 'register', 'register': 'r1', 'bytecode': code}
+    if ty == 'register_pp':
+        return {'type': 'register', 'register': 'r1', 'bytecode': code, 'decorator': {'type': 'plus_plus', 'is_prefix': False}}
+    if ty == 'register_at':
+        return {'type': 'register', 'register': 'r1', 'bytecode': code, 'decorator': {'type': 'at', 'is_prefix': True}}
     if ty == 'indirect_register':
         c = {'type': ty, 'register': 'r1', 'bytecode': code}
         if off:
